@@ -84,7 +84,13 @@ func runLimiter(id string, parts []string) string {
 	return guard(id, 20*time.Second, func() string {
 		cl := limiter.NewClientLimiter(c15Opts(f))
 		defer cl.Close()
+		return c15History(cl, f, ops)
+	})
+}
 
+// c15History plays an ops history (see kind "limiter") on a ClientLimiter.
+func c15History(cl *limiter.ClientLimiter, f map[string]string, ops []string) string {
+	{
 		base := time.Unix(1_800_000_000, 0)
 		realClock := f["clock"] == "real"
 		if realClock {
@@ -150,7 +156,7 @@ func runLimiter(id string, parts []string) string {
 			d = "-"
 		}
 		return fmt.Sprintf("dec=%s len=%d near=%d", d, len(cl.VerifKeys()), near)
-	})
+	}
 }
 
 func runLimDefaults(id string, parts []string) string {
